@@ -70,13 +70,19 @@ func condSQL(w *Cond) (string, bool) {
 	return " WHERE " + strings.Join(parts, j), true
 }
 
+// rawName: plans are stored as JSON, which cannot carry bytes that are not
+// UTF-8; three private-use runes stand for such bytes in database names.
+func rawName(n string) string {
+	return strings.NewReplacer("\ue0ff", "\xff", "\ue0fe", "\xfe", "\ue0c3", "\xc3").Replace(n)
+}
+
 // SQLText renders the statement; ok=false when it cannot be expressed as text.
 func (s *Stmt) SQLText() (string, bool) {
 	switch s.Kind {
 	case KCreateDB:
-		return "CREATE DATABASE " + s.DB, true
+		return "CREATE DATABASE " + rawName(s.DB), true
 	case KUse:
-		return "USE " + s.DB, true
+		return "USE " + rawName(s.DB), true
 	case KShowDB:
 		return "SHOW DATABASES", true
 	case KRawSQL:
